@@ -359,7 +359,7 @@ struct RaceCase {
     threads: Vec<Vec<u8>>, // per thread: ops 0=get_hash 1=clone+get_hash 2=std-hash
 }
 
-fn case_race(bytes: &[u8], sched_bytes: &[u8], ctx: &mut Ctx) -> Result<(), Fail> {
+pub fn case_race(bytes: &[u8], sched_bytes: &[u8], ctx: &mut Ctx) -> Result<(), Fail> {
     let mut src = Source::new(bytes);
     let spec = dec_spec(&mut src);
     let nt = 2 + src.below(2);
@@ -476,7 +476,7 @@ fn exhaustive_small(pr: &PropRun) -> LaneReport {
     rep
 }
 
-fn case_exhaustive_replay(bytes: &[u8], _s: &[u8], ctx: &mut Ctx) -> Result<(), Fail> {
+pub fn case_exhaustive_replay(bytes: &[u8], _s: &[u8], ctx: &mut Ctx) -> Result<(), Fail> {
     // replay of an exhaustive-lane violation: bytes = [i, j] indices into the enumeration
     let atoms: Vec<(String, String)> = ["a", "b"].iter().flat_map(|k| ["1", "2"].iter().map(move |v| (k.to_string(), v.to_string()))).collect();
     let mut lists: Vec<Vec<(String, String)>> = vec![vec![]];
